@@ -9,6 +9,7 @@ pub mod common;
 pub mod declcommon;
 pub mod fuzzdrv;
 pub mod hookfree;
+pub mod shapes;
 pub mod c01;
 pub mod c02;
 pub mod c03;
